@@ -71,7 +71,12 @@ Refs(st, p) == { x \in (DOMAIN st.tabs) \X (1..4) : x[2] \in Idxs(st.tabs[x[1]].
 \* alt = "ok": accepting the statement as a no-op (0 rows, database unchanged) is conforming as well -- used where
 \* the error would only be found by evaluating an expression that the implementation never needs to evaluate
 \* (an unknown column in the WHERE / SET clause of an UPDATE or DELETE that selects no row)
-Res(out, st, cnt) == [out |-> out, st |-> st, cnt |-> cnt, alt |-> ""]
+\* aff = the affected rows of a successful DML statement as pairs [old, new] (<<>> where there is no such image):
+\* what row-level triggers fire on (C34)
+\* altst = a second conforming post-state, where a definition leaves two readings open (UPDATE OF: "the statement
+\* assigns the column" vs "the column's value changes"); NoAlt when there is none
+NoAlt == [none |-> TRUE]
+Res(out, st, cnt) == [out |-> out, st |-> st, cnt |-> cnt, alt |-> "", aff |-> <<>>, altst |-> NoAlt]
 Fail(st)   == Res("err", st, 0)
 Ok(st, n)  == Res("ok", st, n)
 SetRows(st, t, rows) == [st EXCEPT !.tabs[t].rows = rows]
@@ -139,7 +144,7 @@ DoInsert(st, a) ==
    IF (\E i \in Idxs(a.rows) : Len(a.rows[i]) # arity) \/ (\E j \in Idxs(a.cols) : ~HasCol(T, a.cols[j])) THEN Fail(st) ELSE
    LET news == [i \in Idxs(a.rows) |-> BuildRow(st, a.t, T, a.cols, a.rows[i])]
        r == InsertRows(st, a.t, news)
-   IN IF r.ok THEN Ok(r.st, Len(news)) ELSE Fail(st)
+   IN IF r.ok THEN [Ok(r.st, Len(news)) EXCEPT !.aff = [i \in Idxs(news) |-> [old |-> <<>>, new |-> news[i]]]] ELSE Fail(st)
 
 DoInsertSelect(st, a) ==
    IF a.t \notin DOMAIN st.tabs THEN Fail(st) ELSE
@@ -148,7 +153,7 @@ DoInsertSelect(st, a) ==
    IF R.err \/ Len(R.names) # arity \/ (\E j \in Idxs(a.cols) : ~HasCol(T, a.cols[j])) THEN Fail(st) ELSE
    LET news == [i \in Idxs(R.rows) |-> BuildRow(st, a.t, T, a.cols, [j \in Idxs(R.rows[i]) |-> Lit(R.rows[i][j])])]
        r == InsertRows(st, a.t, news)
-   IN IF r.ok THEN Ok(r.st, Len(news)) ELSE Fail(st)
+   IN IF r.ok THEN [Ok(r.st, Len(news)) EXCEPT !.aff = [i \in Idxs(news) |-> [old |-> <<>>, new |-> news[i]]]] ELSE Fail(st)
 
 \* ---------- referential actions of UPDATE on a referenced (parent) table ----------
 \* st2: the state with the parent rows already replaced by rows2; st0: the state before the statement.
@@ -221,7 +226,8 @@ DoUpdate(st, a) ==
       ELSE IF \E f \in Idxs(T.fks) : \E i \in sel : ~FkRowOk(st2, T, T.fks[f], rows2[i]) THEN Fail(st)
       ELSE IF casc.out = "unmodelled" THEN Res("unmodelled", st, 0)
       ELSE IF casc.out = "err" THEN Fail(st)
-      ELSE [Ok(casc.st, Cardinality(sel)) EXCEPT !.alt = IF transient THEN "err" ELSE ""]
+      ELSE [Ok(casc.st, Cardinality(sel)) EXCEPT !.alt = IF transient THEN "err" ELSE "",
+                                                 !.aff = [k \in Idxs(SetToSeq(sel)) |-> [old |-> T.rows[SetToSeq(sel)[k]], new |-> rows2[SetToSeq(sel)[k]]]]]
 
 \* ---------- DELETE / TRUNCATE ----------
 DoDelete(st, a) ==
@@ -237,12 +243,16 @@ DoDelete(st, a) ==
                           /\ fk.ondel \notin {"cascade", "setnull"}
                           /\ \E c \in Idxs(C.rows) : LET k == KeyOf(C, fk.cols, C.rows[c]) IN
                                 ~HasNullKey(k) /\ \E i \in sel : RowEq(KeyOf(T, fk.rcols, T.rows[i]), k)
-   IN IF r.ok THEN [Ok(r.st, Cardinality(sel)) EXCEPT !.alt = IF immediateHit THEN "err" ELSE ""] ELSE Fail(st)
+   IN IF r.ok THEN [Ok(r.st, Cardinality(sel)) EXCEPT !.alt = IF immediateHit THEN "err" ELSE "",
+                                                      !.aff = [k \in Idxs(SetToSeq(sel)) |-> [old |-> T.rows[SetToSeq(sel)[k]], new |-> <<>>]]]
+      ELSE Fail(st)
 
 DoTruncate(st, a) ==
    IF a.t \notin DOMAIN st.tabs THEN Fail(st) ELSE
    \* TRUNCATE is refused while another table's foreign key references this one
    IF \E x \in Refs(st, a.t) : x[1] # a.t THEN Fail(st)
+   \* ... and while the table has DELETE triggers (they would have to fire per row)
+   ELSE IF \E i \in Idxs(st.trg) : st.trg[i].t = a.t /\ st.trg[i].ev = "del" THEN Fail(st)
    ELSE Ok(SetRows(st, a.t, <<>>), Len(st.tabs[a.t].rows))
 
 \* ---------- DDL ----------
@@ -330,6 +340,63 @@ DoCreateView(st, a) ==
    ELSE Ok([st EXCEPT !.views = FnPut(st.views, a.n, [q |-> a.q, cols |-> a.cols])], 0)
 DoDropView(st, a) == IF a.n \in DOMAIN st.views THEN Ok([st EXCEPT !.views = FnDel(st.views, a.n)], 0) ELSE Fail(st)
 
+\* ---------- triggers (C34) ----------
+\* trg = Seq([n, t, timing ("before"|"after"), ev ("ins"|"upd"|"del"), ofcols, gran ("row"|"stmt"), when, body])
+\* body = [k |-> "audit", into, tag]: INSERT INTO into VALUES (tag, OLD.c1, OLD.c2, NEW.c1, NEW.c2) (NULL where no image)
+\*      | [k |-> "chk", into, src]  : INSERT INTO into VALUES (src.c2)   with src = "new" | "old"  (fails when into's CHECK does)
+\* Trigger bodies write to other tables than the one the statement runs on, so the final state does not depend on how the
+\* firings are interleaved with the row changes: it is the statement's own effect plus one body execution per firing.
+\* A firing that fails makes the whole statement fail: nothing changes, neither the table nor the audit tables (C11).
+DoCreateTrigger(st, a) ==
+   IF a.t \notin DOMAIN st.tabs \/ (\E i \in Idxs(st.trg) : st.trg[i].n = a.n) THEN Fail(st)
+   ELSE Ok([st EXCEPT !.trg = Append(@, [n |-> a.n, t |-> a.t, timing |-> a.timing, ev |-> a.ev, ofcols |-> a.ofcols, gran |-> a.gran,
+                                         when |-> a.when, body |-> a.body])], 0)
+DoDropTrigger(st, a) == IF \E i \in Idxs(st.trg) : st.trg[i].n = a.n THEN Ok([st EXCEPT !.trg = SelectSeq(@, LAMBDA g : g.n # a.n)], 0) ELSE Fail(st)
+Img(r, k) == IF r = <<>> THEN NULL ELSE r[k]
+TrgEnv(T, old, new) ==
+   LET nul == [i \in Idxs(T.cols) |-> NULL]
+       o == IF old = <<>> THEN nul ELSE old
+       w == IF new = <<>> THEN nul ELSE new
+   IN << [cols |-> [i \in Idxs(T.cols) |-> [q |-> "OLD", c |-> T.cols[i].n]] \o [i \in Idxs(T.cols) |-> [q |-> "NEW", c |-> T.cols[i].n]],
+          row |-> o \o w] >>
+\* one firing: [ok, st]
+FireOne(s, g, T, old, new) ==
+   IF g.gran = "row" /\ g.when.k # "none" /\ ~Truth(Ev(g.when, TrgEnv(T, old, new), <<>>, DbOf(s))) THEN [ok |-> TRUE, st |-> s]
+   ELSE IF g.body.into \notin DOMAIN s.tabs THEN [ok |-> FALSE, st |-> s]
+   ELSE LET row == IF g.body.k = "audit" THEN << S(g.body.tag), Img(old, 1), Img(old, 2), Img(new, 1), Img(new, 2) >>
+                   ELSE << Img(IF g.body.src = "new" THEN new ELSE old, 2) >>
+        IN InsertRows(s, g.body.into, << row >>)
+\* an UPDATE OF trigger fires only when the statement assigns one of its columns
+OfMatches(g, a) == g.ev # "upd" \/ g.ofcols = <<>> \/ (\E j \in Idxs(g.ofcols) : \E k \in Idxs(a.set) : a.set[k].c = g.ofcols[j])
+RECURSIVE FireAll(_,_,_,_)
+\* todo = sequence of [g, old, new]
+FireAll(s, T, todo, k) ==
+   IF k > Len(todo) THEN [ok |-> TRUE, st |-> s]
+   ELSE LET r == FireOne(s, todo[k].g, T, todo[k].old, todo[k].new) IN
+        IF r.ok THEN FireAll(r.st, T, todo, k + 1) ELSE [ok |-> FALSE, st |-> s]
+EvOf(a) == IF a.a \in {"ins", "inssel"} THEN "ins" ELSE a.a
+WithTriggers(st, a, r) ==
+   IF r.out # "ok" \/ a.t \notin DOMAIN st.tabs THEN r ELSE
+   LET mine == SelectSeq(st.trg, LAMBDA g : g.t = a.t /\ g.ev = EvOf(a) /\ OfMatches(g, a)) IN
+   IF mine = <<>> THEN r ELSE
+   LET T == st.tabs[a.t]
+       stmtG == SelectSeq(mine, LAMBDA g : g.gran = "stmt")
+       rowG  == SelectSeq(mine, LAMBDA g : g.gran = "row")
+       stmtTodo == [i \in Idxs(stmtG) |-> [g |-> stmtG[i], old |-> <<>>, new |-> <<>>]]
+       \* every row-level trigger once per affected row
+       rowTodo == [n \in 1..(Len(rowG) * Len(r.aff)) |->
+                     LET gi == ((n - 1) % Len(rowG)) + 1 ri == ((n - 1) \div Len(rowG)) + 1
+                     IN [g |-> rowG[gi], old |-> r.aff[ri].old, new |-> r.aff[ri].new]]
+       f == FireAll(r.st, T, stmtTodo \o rowTodo, 1)
+       \* second reading of UPDATE OF: the trigger fires only for rows in which one of its columns changes value
+       changedOf(x) == x.g.ofcols = <<>> \/ \E j \in Idxs(x.g.ofcols) : ~GroupEq(x.old[ColIdx(T, x.g.ofcols[j])], x.new[ColIdx(T, x.g.ofcols[j])])
+       rowTodo2 == SelectSeq(rowTodo, changedOf)
+       f2 == FireAll(r.st, T, stmtTodo \o rowTodo2, 1)
+   IN IF rowTodo2 = rowTodo THEN (IF f.ok THEN [r EXCEPT !.st = f.st] ELSE Fail(st))
+      ELSE IF f.ok /\ f2.ok THEN [r EXCEPT !.st = f.st, !.altst = f2.st]
+      ELSE IF ~f.ok /\ ~f2.ok THEN Fail(st)
+      ELSE Res("unmodelled", st, 0)
+
 \* ---------- transactions (C13, C14) ----------
 SnapOf(st) == [tabs |-> st.tabs, views |-> st.views, idx |-> st.idx, trg |-> st.trg]
 SpExists(st, n) == \E i \in Idxs(st.txn.sps) : st.txn.sps[i].name = n
@@ -360,10 +427,12 @@ Apply(st, a) ==
    CASE a.a = "reset"    -> Ok(InitSt, 0)
      [] a.a = "ct"       -> DoCreateTable(st, a)
      [] a.a = "dt"       -> DoDropTable(st, a)
-     [] a.a = "ins"      -> DoInsert(st, a)
-     [] a.a = "inssel"   -> DoInsertSelect(st, a)
-     [] a.a = "upd"      -> DoUpdate(st, a)
-     [] a.a = "del"      -> DoDelete(st, a)
+     [] a.a = "ins"      -> WithTriggers(st, a, DoInsert(st, a))
+     [] a.a = "inssel"   -> WithTriggers(st, a, DoInsertSelect(st, a))
+     [] a.a = "upd"      -> WithTriggers(st, a, DoUpdate(st, a))
+     [] a.a = "del"      -> WithTriggers(st, a, DoDelete(st, a))
+     [] a.a = "ctrg"     -> DoCreateTrigger(st, a)
+     [] a.a = "dtrg"     -> DoDropTrigger(st, a)
      [] a.a = "trunc"    -> DoTruncate(st, a)
      [] a.a = "ci"       -> DoCreateIndex(st, a)
      [] a.a = "di"       -> DoDropIndex(st, a)
